@@ -65,15 +65,53 @@ def snapshot(log=print):
     return snap, h, time.time() - t0
 
 
-def world(log=print):
+def bin_mir(snap):
+    """MIR of the `resolved` binary crate (C09 only: its first build compiles the binary's dependencies with the nightly
+    toolchain, several minutes; cached in the target directory afterwards)"""
+    out = os.path.join(snap, 'resolved-bin.mir')
+    t0 = time.time()
+    with Lock('snap'):
+        if os.path.exists(out): return out, 0.0
+        env = dict(ENV, CARGO_TARGET_DIR=os.path.join(CACHE, 'target'))
+        os.utime(os.path.join(snap, 'crates', 'resolved', 'src', 'main.rs'))
+        cmd = ['cargo', 'rustc', '--offline', '--bin', 'resolved', '--', '-Zunpretty=mir', '-C', 'debug-assertions=off', '-C', 'overflow-checks=on']
+        p = subprocess.run(cmd, cwd=os.path.join(snap, 'crates', 'resolved'), env=env, stdout=subprocess.PIPE, stderr=subprocess.PIPE)
+        if p.returncode != 0 or len(p.stdout) < 1000:
+            sys.stderr.write(p.stderr.decode()[-4000:])
+            raise SystemExit('INCONCLUSIVE: MIR dump of the resolved binary failed (does /repo compile?)')
+        open(out + '.tmp', 'wb').write(p.stdout); os.rename(out + '.tmp', out)
+    return out, time.time() - t0
+
+
+def world(log=print, with_bin=False):
     sys.path.insert(0, os.path.dirname(os.path.abspath(__file__)))
     from world import World
     snap, h, dt = snapshot(log)
-    w = World([os.path.join(snap, c + '.mir') for c in CRATES], snap)
+    files = [os.path.join(snap, c + '.mir') for c in CRATES]
+    if with_bin:
+        f, dt2 = bin_mir(snap); files.append(f); dt += dt2
+    w = World(files, snap)
     w.snap = snap; w.tree_hash = h; w.mir_seconds = dt
     return w
 
 
+def warm_replay_builds(snap):
+    """compile the test binaries the native replays / cross-validations start from (dev profile), so that the first
+    check after a fresh restore does not pay for the dependencies of the `resolved` binary"""
+    ws = os.path.join(CACHE, 'replay-ws-warm')
+    if os.path.exists(ws): shutil.rmtree(ws)
+    try:
+        subprocess.check_call(['rsync', '-a', '--exclude', '*.mir', '--exclude', 'ok', snap + '/', ws + '/'])
+        env = dict(ENV, CARGO_TARGET_DIR=os.path.join(CACHE, 'target-replay'))
+        with Lock('replay'):
+            p = subprocess.run(['cargo', 'test', '--offline', '--workspace', '--no-run'], cwd=ws, env=env, stdout=subprocess.PIPE, stderr=subprocess.STDOUT)
+        return p.returncode == 0
+    finally:
+        shutil.rmtree(ws, ignore_errors=True)
+
+
 if __name__ == '__main__':
-    w = world()
+    w = world(with_bin=True)
     print('snapshot', w.snap, 'fns', len(w.fns), 'mir regenerated in %.1fs' % w.mir_seconds)
+    t0 = time.time()
+    print('replay test binaries built:', warm_replay_builds(w.snap), 'in %.1fs' % (time.time() - t0))
